@@ -10,7 +10,8 @@ import textpasses as T
 from cvise.passes.peep import PeepPass
 
 OBLIGATIONS = ['Cvise.C03.drive_bound', 'Cvise.C03.binary_search_bound', 'Cvise.C03.peep_advance_progress', 'Cvise.C03.comments_reject_bound',
-               'Cvise.C03.main_rounds_le', 'Cvise.C03.shipped_stop_cmp', 'Cvise.step_mu', 'Cvise.D.mainLoop_stops']
+               'Cvise.C03.main_rounds_le', 'Cvise.C03.shipped_stop_cmp', 'Cvise.step_mu', 'Cvise.D.mainLoop_stops', 'Cvise.C03.balanced_bound',
+               'Cvise.C03.balanced_recipes_shrink']
 
 
 def cap_for(name, arg, n):
@@ -99,19 +100,19 @@ def main_loop_part(ctx, diffs):
     def orc(scen, obs):
         if obs['outcome'] == 'Watchdog':
             return 'reduction-does-not-end'
-        total0 = sum(len(scen['texts'][c]) for c in scen['disk'])
         main = scen['groups']['main']
-        runs = [m[1] for m in obs.get('marked', [])]
-        # rounds of the main loop = occurrences of the first main pass after the `first` passes
-        nfirst = len(scen['groups']['first'])
-        body = runs[nfirst:]
-        rounds = 0
-        i = 0
-        while i + len(main) <= len(body) and body[i:i + len(main)] == main:
-            rounds += 1
-            i += len(main)
-        if rounds > total0 + 1:
-            return 'main-loop-more-rounds-than-bytes'
+        marks = obs.get('marked', [])
+        nfirst, nlast = len(scen['groups']['first']), len(scen['groups']['last'])
+        if obs['outcome'] != 'ok' or not main or (len(marks) - nfirst - nlast) % len(main) != 0:
+            return None          # a run that ended with an error has no complete round structure to judge
+        rounds = (len(marks) - nfirst - nlast) // len(main)
+        body = marks[nfirst:nfirst + rounds * len(main)]
+        if [m[1] for m in body] != main * rounds:
+            return None
+        starts = [body[j * len(main)][3] for j in range(rounds)]      # total size when round j of the main loop starts
+        for a, b in zip(starts, starts[1:]):
+            if not b < a:
+                return 'main-loop-round-started-without-progress'
         return None
 
     def nt(scen, obs):
